@@ -426,3 +426,136 @@ def o3_term_read(case, obs):
     return '(OC (OCase13 %s %s %s %s %s %s %s %s %s %s %s %s))' % (
         M.coq_one3d(c), C.zlist([x['hhmm'] for x in c['steps']]), C.zlist(M.encode(c)), C.cbool(mm['status'] == 'ok'), mv,
         C.cbool(rd['status'] == 'ok'), rv, C.cbool(rd['status'] == 'timeout'), C.cbool(ok), selft, C.zc(count), seeks)
+
+
+# ----------------------------------------------------------------------------- temperature / height_pressure in Coq (Model/TempHp.v)
+def is_th(case):
+    return case.get('content', {}).get('fmt') in M.TH_FORMATS and not case.get('sweep')
+
+
+def is_layered(case):
+    """formats whose Memmap reader is modelled in Coq through the generic driver run_o3"""
+    return is_o3(case) or is_th(case)
+
+
+def th_shape_ok(c, view):
+    dm, d = view['dims'], view['data']
+    if list(d.keys()) != M.VARS[c['fmt']]:
+        return False
+
+    def ok4(arr):
+        return (len(arr) == dm.get('TSTEP') and all(len(t) == dm.get('LAY') and all(len(lay) == c['ny'] and all(len(r) == c['nx'] for r in lay)
+                                                                                     for lay in t) for t in arr))
+    if c['fmt'] == 'temperature':
+        s = d['SURFTEMP']
+        return (len(s) == dm.get('TSTEP') and all(len(x) == c['ny'] and all(len(r) == c['nx'] for r in x) for x in s) and ok4(d['AIRTEMP']))
+    return ok4(d['HGHT']) and ok4(d['PRES'])
+
+
+def th_py_check(case, obs):
+    c = case['content']
+    why = []
+    mm = obs.get('mm') or {}
+    if mm.get('status') == 'timeout':
+        why.append('library reader did not return')
+    if mm.get('status') == 'ok' and not th_shape_ok(c, mm['view']):
+        why.append('variable names or array shapes are not those of a %s file on a %dx%d grid' % (c['fmt'], c['ny'], c['nx']))
+    return why
+
+
+def th_term(case, obs, suffix=''):
+    """Coq term `TD (TCase ...)` / `HD (HCase ...)` of Corr/C09.v (TD8 / HD8 for Corr/C08.v) for a run_o3 observation"""
+    c = case['content']
+    mm = obs['mm']
+    ok = mm['status'] == 'ok'
+    v, tf = M.coq_thview(c, mm['view'] if ok else None)
+    wr = obs.get('wr') or {}
+    t = c['fmt'] == 'temperature'
+    tbl = sorted(set((L.f32_word(float(s['hhmm'])), s['hhmm']) for s in c['steps']))
+    return '(%s%s (%s %s %s %s %s %d %s %s %s %s %s %s))' % (
+        'TD' if t else 'HD', suffix, 'TCase' if t else 'HCase', M.coq_temphp(c), C.zlist([s['hhmm'] for s in c['steps']]),
+        M.coq_pairs(tbl), C.zlist(M.encode(c)), obs['cut'], C.cbool(ok), v, tf,
+        C.cbool(not th_py_check(case, obs)), C.cbool(wr.get('status') == 'ok'), C.zlist(wr.get('words') or []))
+
+
+def layered_term(case, obs, suffix=''):
+    if is_o3(case):
+        return o3_term(case, obs, 'OD' + suffix)
+    return th_term(case, obs, suffix)
+
+
+def layered_py_check(case, obs):
+    return o3_py_check(case, obs) if is_o3(case) else th_py_check(case, obs)
+
+
+def run_th_read(case):
+    """C13, temperature / height_pressure: Memmap reader and record reader on the same reference-encoded file; the record
+    reader's fields and (height_pressure) the seeks of getArray are captured"""
+    c = case['content']
+    fmt = c['fmt']
+    ws = M.encode(c)
+    d = L.workdir()
+    obs = dict(nwords=len(ws))
+    try:
+        p = os.path.join(d, 'f.bin')
+        with open(p, 'wb') as f:
+            f.write(L.bytes_of_words(ws))
+        st, o = _guard(lambda: M.observe(M.open_memmap(fmt, p, c), fmt))
+        obs['mm'] = dict(status=st, view=o if st == 'ok' else None, err=o if st == 'raises' else None)
+        cap = {}
+
+        def rd():
+            r = M.open_read(fmt, p, c)
+            cap['self'] = {k: (float(getattr(r, k)) if getattr(r, k, None) is not None else None)
+                           for k in ('start_date', 'start_time', 'time_step', 'nlayers', 'padded_size', 'area_padded_size',
+                                     'data_start_byte', 'time_step_count')}
+            if fmt == 'height_pressure':
+                seeks, pos = [], []
+                orig_new = r.rffile._newrecord
+
+                def newrec(x):
+                    pos.append(int(x))
+                    return orig_new(x)
+                r.rffile._newrecord = newrec
+                orig_seek = r.seek
+
+                def seek(date=None, time=None, k=1, hp=0, chkvar=True):
+                    n0 = len(pos)
+                    res = orig_seek(date, time, k, hp, chkvar)
+                    if len(pos) > n0 and date is not None and float(time) == int(time) and float(date) == int(date):
+                        seeks.append([int(date), int(time), int(k), int(hp), pos[-1]])
+                    return res
+                r.seek = seek
+                cap['seeks'] = seeks
+            return M.observe(r, fmt)
+        st4, o4 = _guard(rd, 4.0)
+        obs['rd'] = dict(status=st4, view=o4 if st4 == 'ok' else None, err=o4 if st4 == 'raises' else None)
+        obs['self'] = cap.get('self')
+        obs['seeks'] = (cap.get('seeks') or [])[:80] if st4 == 'ok' else []
+    finally:
+        shutil.rmtree(d, ignore_errors=True)
+    signal.setitimer(signal.ITIMER_REAL, 60.0)
+    return obs
+
+
+def th_term_read(case, obs):
+    """Coq term `TC (TCase13 ...)` / `HC (HCase13 ...)` of Corr/C13.v"""
+    c = case['content']
+    mm, rd = obs['mm'], obs['rd']
+    mv = M.coq_thview(c, mm['view'] if mm['status'] == 'ok' else None)[0]
+    rv = M.coq_thview(c, rd['view'] if rd['status'] == 'ok' else None)[0]
+    s = obs.get('self')
+    ok = bool(s) and all(s[k] is None or float(s[k]) == int(s[k]) for k in s)
+    head = '%s %s %s %s %s %s %s %s' % (M.coq_temphp(c), C.zlist([x['hhmm'] for x in c['steps']]), C.zlist(M.encode(c)),
+                                     C.cbool(mm['status'] == 'ok'), mv, C.cbool(rd['status'] == 'ok'), rv,
+                                     C.cbool(rd['status'] == 'timeout'))
+    z = lambda k: C.zc(int(s[k])) if ok else '0'  # noqa: E731
+    if c['fmt'] == 'temperature':
+        selft = ('{| trs_nlayers := %s; trs_time_step := %s; trs_count := %s; trs_area_padded := %s; trs_padded := %s |}'
+                 % (z('nlayers'), z('time_step'), z('time_step_count'), z('area_padded_size'), z('padded_size')))
+        return '(TC (TCase13 %s %s %s))' % (head, C.cbool(ok), selft)
+    selft = ('{| hpr_start_date := %s; hpr_start_time := %s; hpr_time_step := %s; hpr_nlayers := %s; hpr_padded_size := %s; '
+             'hpr_data_start_byte := %s |}') % (z('start_date'), z('start_time'), z('time_step') if ok else '1', z('nlayers'),
+                                                z('padded_size'), z('data_start_byte'))
+    seeks = '[' + '; '.join('(%s, %s, %s, %s, %s)' % tuple(C.zc(v) for v in x) for x in obs.get('seeks', [])) + ']'
+    return '(HC (HCase13 %s %s %s %s %s))' % (head, C.cbool(ok), selft, z('time_step_count'), seeks)
